@@ -367,6 +367,10 @@ class BaseGeo(BaseTransform):
             else:
                 label = add_iteration_suffix(label)
             obj_copy.style.label = label
+        # the copy joins a collection only when it is complete: a rejected keyword
+        # must not leave a half-made copy in the caller's collection
+        parent_kwargs = {k: v for k, v in kwargs.items() if k == "parent"}
+        kwargs = {k: v for k, v in kwargs.items() if k != "parent"}
         style_kwargs = {}
         for k, v in kwargs.items():
             if k.startswith("style"):
@@ -376,4 +380,6 @@ class BaseGeo(BaseTransform):
         if style_kwargs:
             style_kwargs = self._process_style_kwargs(**style_kwargs)
             obj_copy.style.update(style_kwargs)
+        if parent_kwargs:
+            obj_copy.parent = parent_kwargs["parent"]
         return obj_copy
